@@ -1,3 +1,43 @@
-From JSL Require Import Base Instance Dstate Feasible.
-Theorem placeholder_C01 : True. Proof. exact I. Qed.
-Print Assumptions placeholder_C01.
+(** C01 — every dispatch history yields a feasible schedule.
+    Statements only; proofs are in proofs/Inv.v and proofs/Run.v. *)
+From JSL Require Import Base Instance Dstate Filters World Observers Feasible DispatchFun Inv Run.
+
+(** Every instance with non-negative durations (flexible or not, empty jobs,
+    zero durations), every filter configuration [fs], every list of requests
+    [rs] — ready or not, any machine id or none; rejected ones leave the world
+    unchanged — hence every prefix, interleaving and machine choice. *)
+Theorem C01_feasible :
+  forall (I : instance) (fs : list fname) (rs : list request), valid I ->
+    feasible I (sched (core (run_reqs obs o_update I fs rs))) /\
+    (count_accepted obs o_update I (init_w obs I fs) rs = num_ops I ->
+     complete I (sched (core (run_reqs obs o_update I fs rs)))).
+Proof. exact (dispatch_histories_feasible obs o_update). Qed.
+Print Assumptions C01_feasible.
+
+(** [Schedule.is_complete()] is true exactly when every operation occurs. *)
+Theorem C01_is_complete_iff :
+  forall (I : instance) (fs : list fname) (rs : list request), valid I ->
+    (is_complete I (sched (core (run_reqs obs o_update I fs rs))) = true <->
+     complete I (sched (core (run_reqs obs o_update I fs rs)))).
+Proof. intros I fs rs Hv. apply is_complete_spec. apply run_Inv; exact Hv. Qed.
+Print Assumptions C01_is_complete_iff.
+
+(** The oracle applied to the implementation's schedules is the specification. *)
+Theorem C01_oracle_is_spec :
+  forall (I : instance) (S : schedule), feasibleb I S = true <-> feasible I S.
+Proof. exact feasibleb_spec. Qed.
+Print Assumptions C01_oracle_is_spec.
+
+(** Non-vacuity: a flexible instance with a zero duration and recirculation,
+    a request list containing rejected requests, ending complete. *)
+Definition ex_I : instance :=
+  [[mkop [0%nat; 1%nat] 3; mkop [1%nat] 0; mkop [0%nat] 2]; [mkop [1%nat] 4; mkop [1%nat; 0%nat] 1]].
+Definition ex_rs : list request :=
+  [mkreq 0 0 (Some 1); mkreq 0 2 None; mkreq 1 0 None; mkreq 1 1 (Some 5); mkreq 0 1 None;
+   mkreq 1 1 (Some 0); mkreq 0 2 (Some 0); mkreq 0 2 (Some 0)].
+Example C01_nonvacuous :
+  validb ex_I = true /\
+  count_accepted obs o_update ex_I (init_w obs ex_I []) ex_rs = num_ops ex_I /\
+  sched (core (run_reqs obs o_update ex_I [] ex_rs)) =
+    [[mksop 1 1 7 0; mksop 0 2 8 0]; [mksop 0 0 0 1; mksop 1 0 3 1; mksop 0 1 7 1]].
+Proof. vm_compute. repeat split; reflexivity. Qed.
